@@ -15,10 +15,21 @@ import (
 
 // control-flow panics used inside the interpreter
 type goPanic struct { // a panic of the interpreted program
-	val  Value
-	site string
-	msg  string
+	val      Value
+	site     string
+	msg      string
+	repoFn   string
+	repoFile string
+	repoLine int
+	stack    []string
 }
+
+func (in *Interp) mkPanic(val Value, msg string) goPanic {
+	p := goPanic{val: val, site: in.site(), msg: msg, stack: in.stack()}
+	p.repoFn, p.repoFile, p.repoLine = in.repoSite()
+	return p
+}
+
 type pathEnd struct{ why string }     // path terminated quietly (assume false, cut)
 type unsupported struct{ msg string } // engine cannot continue: path is inconclusive
 type unwindFail struct{ msg string }  // loop/step budget exceeded: inconclusive
@@ -166,6 +177,7 @@ func (in *Interp) Branch(c *smt.Term) bool {
 	}
 	alt := append(append([]int(nil), in.trace...), 0<<1)
 	in.pending = append(in.pending, alt)
+	in.res.ForkSites = append(in.res.ForkSites, "br "+in.site())
 	in.trace = append(in.trace, 1<<1)
 	in.assume(c)
 	return true
@@ -218,6 +230,7 @@ func (in *Interp) Concretize(t *smt.Term, bound int, what string) int {
 	for _, v := range vals[1:] {
 		alt := append(append([]int(nil), in.trace...), v<<1)
 		in.pending = append(in.pending, alt)
+		in.res.ForkSites = append(in.res.ForkSites, "cz("+what+") "+in.site())
 	}
 	v := vals[0]
 	in.trace = append(in.trace, v<<1)
@@ -292,7 +305,7 @@ func shortPath(p string) string {
 }
 
 func (in *Interp) throwRuntime(msg string) {
-	panic(goPanic{val: IfaceV{T: types.Typ[types.String], V: StrV{S: "runtime error: " + msg}}, site: in.site(), msg: "runtime error: " + msg})
+	panic(in.mkPanic(IfaceV{T: types.Typ[types.String], V: StrV{S: "runtime error: " + msg}}, "runtime error: "+msg))
 }
 
 // ---------------------------------------------------------------------
@@ -518,10 +531,16 @@ func (in *Interp) callFunction(fn *ssa.Function, args []Value, env []Value) Valu
 		name = fn.Origin().String()
 	}
 	if intr, ok := in.eng.intrinsics[name]; ok {
+		for i := range args {
+			args[i] = in.concValue(args[i])
+		}
 		return intr(in, fn, args)
 	}
 	if fn.Pkg != nil && strings.HasPrefix(fn.Name(), "vh") && in.eng.isHarnessPkg(fn.Pkg) {
 		if h, ok := harnessIntrinsics[fn.Name()]; ok {
+			for i := range args {
+				args[i] = in.concValue(args[i])
+			}
 			return h(in, fn, args)
 		}
 	}
@@ -671,7 +690,7 @@ func (in *Interp) runFrame(fr *frame) {
 				return
 			case *ssa.Panic:
 				v := fr.get(x.X)
-				panic(goPanic{val: v, site: in.site(), msg: "panic: " + in.panicText(v)})
+				panic(in.mkPanic(v, "panic: "+in.panicText(v)))
 			default:
 				in.visit(fr, instr)
 			}
